@@ -519,7 +519,7 @@ def orchestrate(pid, tier, seed, replay):
         running = []
         results = []
         maxpar = int(os.environ.get("VERIF_JOBS", "16"))
-        hard = b["wall_s"] * 3 + 120
+        hard = b["wall_s"] * 5 + 300
         while pending or running:
             while pending and len(running) < maxpar:
                 mode, i, ns = pending.pop(0)
